@@ -21,7 +21,8 @@ import (
 )
 
 type hubOp struct {
-	K    string `json:"k"`              // add rm sendto bcast bcastx list closesess
+	K    string `json:"k"`              // add rm sendto bcast bcastx list closesess | flood hold pause
+	N    int    `json:"n,omitempty"`    // flood: how many addressed messages
 	S    int    `json:"s"`              // session index
 	P    int    `json:"p,omitempty"`    // peer index
 	Slot int    `json:"slot,omitempty"` // rm: which of the actor's own adds (ordinal)
@@ -75,6 +76,19 @@ func (hubHarness) Gen(r *verifsim.SplitMix, tier string, idx int) any {
 			}
 		}
 		sp.Actors = append(sp.Actors, ops)
+	}
+	if r.Chance(1, 6) {
+		// a slow or dead peer: its socket takes one message and then nothing, its handler
+		// stays (60 simulated seconds) before it notices and leaves; somebody sends it more
+		// messages than its queue holds; the other actors start a second later
+		for len(sp.Actors) < 3 {
+			sp.Actors = append(sp.Actors, []hubOp{{K: "list", S: 0}, {K: "add", S: r.Intn(ns), P: 1 + r.Intn(3), Mode: "ok"}})
+		}
+		sp.Actors[0] = append([]hubOp{{K: "add", S: 0, P: 0, Mode: "block"}, {K: "hold"}}, sp.Actors[0]...)
+		sp.Actors[1] = append([]hubOp{{K: "flood", S: 0, P: 0, N: 258 + r.Intn(40)}}, sp.Actors[1]...)
+		for a := 2; a < len(sp.Actors); a++ {
+			sp.Actors[a] = append([]hubOp{{K: "pause"}}, sp.Actors[a]...)
+		}
 	}
 	return sp
 }
@@ -301,6 +315,7 @@ func (hubHarness) Run(spec any) (res verifsim.RunResult) {
 				mu.Unlock()
 			}
 			msgN := 0
+			floods := 0
 			for ai, script := range sp.Actors {
 				ai, script := ai, script
 				verifsim.Go(fmt.Sprintf("A%d", ai), func() {
@@ -335,7 +350,30 @@ func (hubHarness) Run(spec any) (res verifsim.RunResult) {
 						sess := fmt.Sprintf("s%d", op.S)
 						peer := fmt.Sprintf("p%d", op.P)
 						cur = op.K
+						began := time.Now()
+						stalledAtStart := s.StallTime
+						judged := true
 						switch op.K {
+						case "hold":
+							judged = false
+							time.Sleep(60 * time.Second)
+						case "pause":
+							judged = false
+							time.Sleep(time.Second)
+						case "flood":
+							// addressed messages beyond what the addressee's queue holds; not part of the
+							// linearizability history (the reference model has no queue bound)
+							judged = false
+							for k := 0; k < op.N; k++ {
+								mu.Lock()
+								msgN++
+								id := fmt.Sprintf("m%d", msgN)
+								sent[id] = hubIn{K: "sendto", Sess: sess, Peer: peer}
+								mu.Unlock()
+								verifsim.Y("actor/flood", "op")
+								h.SendTo(sess, peer, protocol.Envelope{V: 1, Type: "x", MsgID: id, SessionID: sess})
+							}
+							floods++
 						case "add":
 							mu.Lock()
 							nextConn++
@@ -409,6 +447,13 @@ func (hubHarness) Run(spec any) (res verifsim.RunResult) {
 							call := s.Steps * 2
 							h.CloseSession(sess)
 							record(ai, hubIn{K: "closesess", Sess: sess}, call, hubOut{})
+						}
+						// no hub operation waits for somebody else's socket: beyond what the drawn
+						// machine stalls account for, none takes simulated time
+						if took := time.Since(began) - (s.StallTime - stalledAtStart); judged && op.K != "sendto" && took >= 10*time.Second {
+							mu.Lock()
+							addV("handler-blocked", op.K, fmt.Sprintf("actor %d: %s on %s/%s took %v of simulated time (a peer of session s0 had stopped reading; this operation is not addressed to it)", ai, op.K, sess, peer, took))
+							mu.Unlock()
 						}
 					}
 					for _, o := range mine {
@@ -488,6 +533,7 @@ func (hubHarness) Run(spec any) (res verifsim.RunResult) {
 			}
 			res.Counters["ops"] += int64(len(ops))
 			res.Counters["deliveries"] += int64(len(deliveries))
+			res.Counters["floods_of_a_stalled_peer"] += int64(floods)
 			// let orphaned writers go so that the bubble can end
 			if h.mu.TryLock() {
 				for _, m := range h.sessions {
